@@ -134,7 +134,7 @@ def c03(tier, seed):
                                 tier="quick" if q else "thorough", n=n, fam=fam,
                                 mem=mem_for(n), timeout=900 if n <= 8 else 3000,
                                 mem_limit_gb=14 if n <= 10 else 30,
-                                covers=covers, optional=(n >= 12),
+                                covers=covers, optional=(n >= 12 or (n >= 11 and op in ("swap", "swap_adjacent"))),
                                 what="%s on %s n=%d: symbolic table, symbolic index(es) < n, symbolic assignment m; result bit m equals the defining source bit; wf; in-place == copying"
                                      % (op, tname, n)))
     return out
@@ -619,7 +619,34 @@ def c15(tier, seed):
     return out
 
 
+# ------------------------------------------------------------------------------------------------
+# C19
+# ------------------------------------------------------------------------------------------------
+
+def c19(tier, seed):
+    out = []
+    quick_dyn = sorted(set([0, 5, 6, 7, 8] + [[1, 2, 3, 4][seed % 4]]))
+    for kind in ("s", "d"):
+        tname = "LutN" if kind == "s" else "Lut"
+        for n in range(0, 13):
+            q = (n <= 8) if kind == "s" else (n in quick_dyn)
+            fam = fam_name(kind, n)
+            claims = {"constant one reachable": "SATISFIED", "constant zero reachable": "SATISFIED",
+                      "two calls can differ": "SATISFIED"}
+            if T(n) >= 2:
+                claims["first and last word can differ"] = "SATISFIED"
+                claims["last word can be non-zero"] = "SATISFIED"
+            s = spec("verif_c19", "c19.rs", "c19_random", "c19_random_%s" % fam, [fam], 8 * T(n) + 3,
+                     tier="quick" if q else "thorough", n=n, fam=fam, mem=mem_for(n), timeout=1800,
+                     features=["rand"], covers={"reached": "SATISFIED"}, claim_covers=claims,
+                     confirm_inst="c19_confirm!(c19_confirm_%s, %s, 0);" % (fam, fam), confirm_fn="c19_confirm_%s" % fam,
+                     what="random() on %s n=%d with the RNG replaced by a stub returning arbitrary u64 values: for EVERY draw sequence the table is well-formed and each call consumes fresh draws; reachability claims: constant one / constant zero / differing words / differing calls" % (tname, n))
+            out.append(s)
+    return out
+
+
 PROPS = {
+    "C19": c19,
     "C15": c15,
     "C13": c13,
     "C12": c12,
